@@ -131,6 +131,19 @@ pub fn check_stream(c: &StreamCase) -> Result<(), String> {
         (None, Ok(_)) => return Err(format!("C07: the stream parser opens these {} bytes, the slice parser does not", b.len())),
         _ => {}
     } }
+    // ---- C07 / C10: a Read+Seek handle need not be positioned at offset 0 when it is handed over (a re-used handle, a peeked file):
+    //      opening must not depend on the initial position -- same success, same header, and (C10) the same defect reported
+    if on("C07") || on("C10") {
+        let pos = (c.fail_at as u64 * 7 + 1 + c.cut as u64) % (b.len() as u64 + 1);
+        let mut p = Probe::new(b, 0, false); p.inner.set_position(pos);
+        let st2 = ElfStream::<AnyEndian, _>::open_stream(p);
+        let tag = if on("C07") { "C07" } else { "C10" };
+        match (&st, &st2) {
+            (Ok(a), Ok(b2)) => if a.ehdr != b2.ehdr { return Err(format!("{}: opening the same {} bytes through a handle positioned at {} yields a different file header", tag, b.len(), pos)); },
+            (Err(e1), Err(e2)) => if on("C10") && format!("{:?}", e1) != format!("{:?}", e2) { return Err(format!("C10: the defect reported for these {} bytes depends on the handle's initial position ({}): {:?} at 0, {:?} there", b.len(), pos, e1, e2)); },
+            (a, b2) => return Err(format!("{}: opening the same {} bytes succeeds={} through a handle at offset 0 but succeeds={} through a handle positioned at {}", tag, b.len(), a.is_ok(), b2.is_ok(), pos)),
+        }
+    }
     // ---- C05 (stream): the parsed header vectors are exactly the tables the header declares (independent decode)
     if let (true, Some((want_sh, want_ph))) = (on("C05"), crate::slice_oracle::c05_expect(b)) {
         match (&st, &want_sh, &want_ph) {
